@@ -82,8 +82,12 @@ class VMap:
         self.reads = []
 
     def term(self, a, b, c):
-        app = self.f(core.lift_int(a), core.lift_int(b), core.lift_int(c))
+        ts = [core.lift_int(a), core.lift_int(b), core.lift_int(c)]
+        app = self.f(*ts)
         self.ex._add(z3.And(app >= -1, app < self.nsrc))
+        # let counterexample models carry the map's values at the cells that were read (used by the replay in doubles)
+        self.ex.memo[('voxel_map', 3)] = self.f
+        self.ex.uf_log.setdefault('voxel_map', []).append(ts)
         return app
 
     def __getitem__(self, idx):
@@ -91,7 +95,10 @@ class VMap:
         self.reads.append(idx)
         if self.ex.sym:
             return I(self.term(a, b, c))
-        # replay: deterministic map over the concrete cell
+        # replay: the counterexample's map where it was read, else a deterministic map over the concrete cell
+        v = self.ex.uf_lookup('voxel_map', a, b, c)
+        if v is not None:
+            return int(v)
         return ((int(a) * 7 + int(b) * 3 + int(c)) % (self.nsrc + 1)) - 1
 
 
